@@ -716,6 +716,75 @@ def rule_l8(F):
     return r
 
 
+def rule_l9(F):
+    """Reading a constant (or a context field) yields an independent copy of the one evaluated value: the LIR lowering of
+    `Value::Constant` / `Value::Context` is evaluated (vf/sx, all paths, private helpers followed) and on every path the only thing
+    that happens with the destination is `call_clone_of(destination, Pointer { base: address of THIS constant taken on THIS path,
+    offset }, type)`.  Storing the constant's address in the destination's own pointer variable (no copy: a callee that writes its
+    by-reference parameter writes the constant) or serving the read from a value remembered earlier in the item (a load-once cache
+    ignores which path was taken) are both reported.  Shared with C14.D5."""
+    from .. import sx
+    r = RuleResult("C02.L9", "a constant / context read is a clone from the constant's own address, taken on the same path (no aliasing of the constant's storage, no remembered loads)", floor=2)
+    ps = [p for p in F.paths() if p.endswith("::assign") and p.startswith("lir::lower") and "{closure" not in p]
+    if not ps:
+        r.missing("lir::lower Lowerer::assign")
+        return r
+    b = F.body(ps[0])
+    vpos = [i for i, p_ in enumerate(b.hir.get("params") or []) if "mir::Value" in str(p_.get("ty") or "")]
+    if not vpos:
+        r.missing("the mir::Value parameter of lir::lower assign")
+        return r
+    BASE = ("emit_", "new_tmp", "call_clone_of", "location", "lower_type", "needs_clone", "var", "literal", "layout_of", "call_drop_of")
+    opaque = {p for p in F.paths() if p.startswith("lir::lower") and p != b.path and any(hir.last(p).startswith(x) for x in BASE)}
+    for vname, val, allowed in (("Constant", ("ctor", "Constant", sx.Sym("name"), sx.Sym("cty")), {"location", "new_tmp", "emit_constant_address", "call_clone_of"}),
+                                ("Context", ("ctor", "Context", sx.Sym("x")), {"location", "call_clone_of"})):
+        try:
+            paths = sx.Exec(F, opaque=opaque).paths(b.hir, {vpos[0]: val})
+        except (sx.TooManyPaths, sx.Unknown) as e_:
+            r.bad(b.path, "Value::%s" % vname, relfile(b.file), b.line, "cannot evaluate the lowering of Value::%s: %s" % (vname, e_))
+            continue
+        paths = [(res, evs) for res, evs in paths if res != ("diverges",)]
+        cloned = 0
+        problems = []
+        for res, evs in paths:
+            evs = [e for e in evs if e[0] == "mcall" or e[0] == "call"]
+            names = [e[1] for e in evs]
+            # what must not happen: the ADDRESS of the constant is stored as if it were the value (aliasing), or the read is served
+            # from / recorded in a table of the lowerer (a remembered load).  Other emitted instructions (a Read of a scalar from the
+            # address, a move of the loaded value) are copies as well and are not this rule's business.
+            extra = [n for n in names if n in ("insert", "get", "entry", "contains_key", "get_mut", "get_or_insert_with")]
+            for e in evs:
+                if e[1] == "emit_assign":
+                    a_ = e[3] if e[0] == "mcall" else e[2]
+                    if any("Pointer" in str(sx.short(x, 200)) for x in a_[1:]):
+                        extra.append("emit_assign of the constant's address")
+            cl = [e for e in evs if e[1] == "call_clone_of"]
+            if extra:
+                problems.append("the read also does %s" % ", ".join(sorted(set(extra))))
+                continue
+            if not cl:
+                continue      # no destination (a value that has no representation): nothing to copy
+            cloned += 1
+            a = cl[0][3] if cl[0][0] == "mcall" else cl[0][2]
+            src = a[1] if len(a) >= 3 else None
+            if vname == "Constant":
+                addr = [e for e in evs if e[1] == "emit_constant_address"]
+                ok = len(cl) == 1 and addr and sx.mentions(addr[0][3][1] if addr[0][0] == "mcall" else addr[0][2][1], "name") \
+                    and src is not None and "new_tmp" in str(sx.short(src, 200)) and sx.mentions(a[2], "cty")
+            else:
+                ok = len(cl) == 1 and src is not None and "Context" in str(sx.short(src, 200)) and sx.mentions(src, "x")
+            if not ok:
+                problems.append("the clone is not taken from the value's own address (source %s)" % sx.short(src, 80))
+        r.inst("Value::%s" % vname, {"paths": len(paths), "paths_that_clone": cloned, "problems": problems[:3]})
+        if not cloned:
+            problems.append("no path clones the value into the destination")
+        for pr in sorted(set(problems))[:3]:
+            r.bad(b.path, "Value::%s: %s" % (vname, pr[:60]), relfile(b.file), b.line,
+                  "reading a %s: %s - the reader does not get an independent copy of the value the constant was evaluated to (a write through the copy reaches the constant, or a path that "
+                  "skipped an earlier read sees an undefined value)" % ("constant" if vname == "Constant" else "context field", pr))
+    return r
+
+
 def rules(ctx):
     F = ctx["F"]
-    return [rule_l1(F), rule_l2(F), rule_l3(F), rule_l4(F), rule_l5(F), rule_l6(F), rule_l7(F), rule_l8(F)]
+    return [rule_l1(F), rule_l2(F), rule_l3(F), rule_l4(F), rule_l5(F), rule_l6(F), rule_l7(F), rule_l8(F), rule_l9(F)]
